@@ -330,6 +330,54 @@ func propMachine(t *rapid.T) {
 			}
 			pool[r] = lib.Pt(model[r])
 		},
+		"rejected-decode": func(t *rapid.T) {
+			// a point object the group operations work on is also the receiver of decoders: an encoding that
+			// is refused must leave it the point it was (the next operations below go on with it)
+			r := slot("r")
+			rec("rejected-decode", r, -1, -2)
+			q := gen.NonIdentityPoint(t, "other").P
+			var enc []byte
+			switch rapid.IntRange(0, 5).Draw(t, "why") {
+			case 0: // canonical x, y >= p
+				enc = append(append([]byte{4}, ref.B32(q.X)...), ref.B32(new(big.Int).Add(ref.P, gen.Small(t, "yover")))...)
+			case 1: // x >= p
+				enc = append(append([]byte{4}, ref.B32(new(big.Int).Add(ref.P, gen.Small(t, "xover")))...), ref.B32(q.Y)...)
+			case 2: // off the curve
+				enc = q.Uncompressed()
+				enc[64] ^= 1
+			case 3: // compressed, x^3 + 7 not a square
+				x := new(big.Int).Set(q.X)
+				for {
+					if _, ok := ref.LiftX(x, false); !ok {
+						break
+					}
+					x = ref.AddM(x, big.NewInt(1), ref.P)
+				}
+				enc = append([]byte{2}, ref.B32(x)...)
+			case 4: // hybrid prefix
+				enc = q.Uncompressed()
+				enc[0] = 6 + enc[64]&1
+			default: // truncated
+				enc = q.Compressed()[:32]
+			}
+			if _, err := pool[r].SetBytes(enc); err == nil {
+				t.Fatalf("SetBytes accepted %x", enc)
+			}
+		},
+		"decode-into": func(t *rapid.T) {
+			// ... and an accepted one (the identity's single byte included) replaces what it held
+			r := slot("r")
+			rec("decode-into", r, -1, -2)
+			q := gen.Point(t, "decoded").P
+			enc := q.Uncompressed()
+			if !q.Inf && rapid.Bool().Draw(t, "compressed") {
+				enc = q.Compressed()
+			}
+			if _, err := pool[r].SetBytes(enc); err != nil {
+				t.Fatalf("SetBytes(%x): %v", enc, err)
+			}
+			model[r] = q
+		},
 		"": func(t *rapid.T) {
 			for i := range pool {
 				if u := pool[i].UncompressedBytes(); !bytes.Equal(u, model[i].Uncompressed()) {
